@@ -707,3 +707,53 @@ unsafe impl GlobalAlloc for ThreadCache {
         }
     }
 }
+
+/// Free-running concurrency pass (sampled schedules, labelled so in the evidence): `f(i)` is
+/// evaluated for every item on one thread first (the baseline), then by `threads` threads at the
+/// same time, each going through the items in a different rotation for `rounds` rounds; every
+/// result must equal the baseline. The library under test has no shared state, so there is
+/// nothing for a controlled scheduler to interleave; this pass exists to notice if that changes
+/// (a scratch buffer hoisted to a `static`, a global cache).
+pub fn concurrent_agreement<T, F>(threads: usize, rounds: usize, items: usize, f: F) -> Result<u64, String>
+where
+    T: PartialEq + std::fmt::Debug + Send + Sync,
+    F: Fn(usize) -> T + Sync,
+{
+    let baseline: Vec<T> = std::thread::scope(|s| s.spawn(|| (0..items).map(&f).collect::<Vec<T>>()).join()).map_err(|_| "the baseline thread panicked".to_string())?;
+    let barrier = std::sync::Barrier::new(threads);
+    let failures = std::sync::Mutex::new(Vec::<String>::new());
+    let done = std::sync::atomic::AtomicU64::new(0);
+    std::thread::scope(|s| {
+        for t in 0..threads {
+            let (baseline, barrier, failures, done, f) = (&baseline, &barrier, &failures, &done, &f);
+            s.spawn(move || {
+                barrier.wait();
+                for r in 0..rounds {
+                    for k in 0..items {
+                        let i = (k * (t + 1) + r + t) % items;
+                        let got = match guard(|| f(i)) {
+                            Ok(g) => g,
+                            Err(p) => {
+                                failures.lock().unwrap().push(format!("item {i} panicked on thread {t}: {p}"));
+                                return;
+                            }
+                        };
+                        done.fetch_add(1, std::sync::atomic::Ordering::Relaxed);
+                        if got != baseline[i] {
+                            let mut fl = failures.lock().unwrap();
+                            if fl.len() < 4 {
+                                fl.push(format!("item {i}: {:?} while {threads} threads run, {:?} alone", got, baseline[i]).chars().take(400).collect());
+                            }
+                            return;
+                        }
+                    }
+                }
+            });
+        }
+    });
+    let fl = failures.into_inner().unwrap();
+    match fl.first() {
+        None => Ok(done.load(std::sync::atomic::Ordering::Relaxed)),
+        Some(e) => Err(e.clone()),
+    }
+}
